@@ -740,3 +740,36 @@ def __getattr__(name):
   if name == 'max':
     return max_
   raise Unsupported('numpy.%s is not modelled by np-lite' % name)
+
+
+class _Random(object):
+  """np.random as a nondeterministic stub: `choice(n, p=...)` returns ANY
+  index whose probability is positive (a fresh symbolic input)."""
+
+  def choice(self, n, p=None):
+    import z3  # pylint: disable=g-import-not-at-top
+    from engine import symrandom  # pylint: disable=g-import-not-at-top
+    if isinstance(n, Arr) or isinstance(n, (list, tuple)):
+      raise Unsupported('random.choice over a population')
+    n = int(n)
+    t = symrandom._fresh('int', 'np_choice_')
+    ex = symex.explorer()
+    ex.assume(symex.SymBool(z3.And(t >= 0, t < n)))
+    r = symex.SymInt(t)
+    if p is not None:
+      probs = _to_data(p)
+      if len(probs) != n:
+        raise ValueError("'a' and 'p' must have same size")
+      ok = None
+      for i, q in enumerate(probs):
+        c_ = (r == i) & (q > 0)
+        ok = c_ if ok is None else (ok | c_)
+      ex.assume(ok if isinstance(ok, symex.SymBool) else symex.SymBool(
+          z3.BoolVal(bool(ok))))
+    return r
+
+  def __getattr__(self, name):
+    raise Unsupported('np.random.%s is not modelled' % name)
+
+
+random = _Random()
